@@ -115,6 +115,14 @@ Definition exn_eqb (a b : exn) : bool :=
   | _, _ => false
   end.
 
+(* Behaviours of the running library that proposed repairs change; the harness reads each off the source of the
+   library under test, so the same model follows the code before and after a repair lands:
+     fl_rename_check    set_property('name') / rename refuse a name used in the element's scope (proposed_fixes/C07-3)
+     fl_link_refuse     remove_link refuses a link that carries a service port (C07-4)
+     fl_skip_gone       _disconnect_from_services skips an interface removed by an earlier disconnection (C07-5)
+     fl_connect_names   connect_interface refuses a derived port / link name already in use (C07-6) *)
+Record flags := mkFlags { fl_rename_check : bool; fl_link_refuse : bool; fl_skip_gone : bool; fl_connect_names : bool }.
+
 Record st := mkSt { sg : graph; sdr : list str }.
 Inductive res (A : Type) := Ok (a : A) | Err (e : exn).
 Arguments Ok {A} a.
